@@ -153,6 +153,7 @@ func unmarshalFromData(k *engine.Case, buf []byte, how string) {
 	in := append([]byte(nil), buf...)
 	var bm bitmap1024.Bit1024
 	var err error
+	var pollute func() // writes one more member into the returned block, through the block's own API
 	via := "NewBigU32FromData"
 	start := uint32(k.R.Intn(1 << 22))
 	tip := k.R.Intn(2) == 0
@@ -164,11 +165,13 @@ func unmarshalFromData(k *engine.Case, buf []byte, how string) {
 			var x *bitmap1024.U32BitTip
 			if x, err = bitmap1024.NewU32BitTipFromData(start, in); err == nil {
 				bm = x.B1024
+				pollute = func() { _ = x.SetU32(start*1024 + 5) }
 			}
 		} else {
 			var x *bitmap1024.BigU32
 			if x, err = bitmap1024.NewBigU32FromData(start, in); err == nil {
 				bm = x.B1024
+				pollute = func() { _ = x.SetI64(int64(start)*1024 + 5) }
 			}
 		}
 	}); p != nil {
@@ -207,6 +210,13 @@ func unmarshalFromData(k *engine.Case, buf []byte, how string) {
 		return
 	}
 	k.Count("unmarshal.fromdata_ok", 1)
+	// every decoded block is a block of its own: the caller goes on using it (one more member),
+	// which must not show in any block decoded later
+	if pollute != nil {
+		if p := try(pollute); p != nil {
+			fail(k, "panic", "setting a member of the block %s returned panicked: %v", via, p)
+		}
+	}
 }
 
 func unmarshalDirect(k *engine.Case, buf []byte, how string) {
